@@ -32,7 +32,8 @@ package http3
 //     declared at that moment is not a header field of the final section (its value belongs to the
 //     trailer section), a field set while its name is not declared is an ordinary header field of
 //     the sections written meanwhile. After the final status these two calls are map changes like
-//     Header().Add("X-B"): each state of the map stands for its own (header, declared trailers) pair;
+//     Header().Add("X-B"): every state of the map is accepted for the final section, and so is the
+//     trailer section of every such state (the trailers the map declared then);
 //   - trailer values set as the handler's last statements (X-V: if the handler announced it).
 //
 // The message is a valid net/http response for every sequence, so every section the writer
